@@ -87,6 +87,11 @@ def c03_cases(tier, seed):
     for ws in (" ", "\t", "\n", "\r", "\r\n", " \t"):
         cs.append(Case("<?xml" + ws + "version='1.0'?><a/>", "nc", True,
                        meta={"gen": "decl-ws", "expect_content": ["Q 1 - x61"]}))
+    cs += gens.g_long(flags="nc")
+    # PI data with '?' in every position relative to the closing '?>'
+    for data in ("?", "??", "???", "a?", "a??", "?a", "a?b", "is it so??", "x ? > ?"):
+        cs.append(Case("<r><?q " + data + "?><a/><!--c--><?z done?></r>", "nc", True,
+                       meta={"gen": "pi-question-marks", "expect_content": ["Q 1 - x72", "K 2 x71 " + spec.hexs(data), "Q 3 - x61", "C 4 x63", "K 5 x7a " + spec.hexs("done")]}))
     return cs
 
 
@@ -103,6 +108,10 @@ def c04_cases(tier, seed):
         cs += rnd.sample(more, min(len(more), 60000))
     cs += gens.g_cst(seed, 800 if q else 6000, flags="nc", renderings=2, hoist=False)
     cs += gens.g_long(flags="nc")
+    # a name declared twice: the first declaration binds, in text as in attribute values and through another entity
+    cs.append(Case("<!DOCTYPE r [<!ENTITY x 'ONE'><!ENTITY x 'TWO'><!ENTITY y '[&x;]'>]><r a='&x;'>&x;&y;<c b='&y;'/></r>", "nc", True,
+                   meta={"gen": "first-wins-text", "expect_content": ["Q 1 - x72", "A 1 0 - x61 " + spec.hexs("ONE"), "X 2 " + spec.hexs("ONE[ONE]"),
+                                                                      "Q 3 - x63", "A 3 0 - x62 " + spec.hexs("[ONE]")]}))
     return cs
 
 
@@ -124,6 +133,7 @@ def d18_cases():
 def c05_cases(tier, seed):
     q = tier == "quick"
     cs = gens.g_pieces_attr(3 if q else 4)
+    cs += gens.g_pieces_attr_in_entity(2 if q else 3)
     cs += gens.g_cst(seed, 800 if q else 6000, flags="nc", renderings=2, hoist=False)
     # attribute lists interleaved with declarations, 0..40 attributes
     rnd = random.Random(seed + 1)
@@ -327,6 +337,7 @@ def illformed_catalogue():
 def c08_cases(tier, seed):
     q = tier == "quick"
     cs = [Case(d, "", True, meta={"gen": "catalogue", "illformed": why}) for d, why in illformed_catalogue()]
+    cs += [Case(c.data, "", True, meta=c.meta) for c in gens.g_long(flags="") if c.meta.get("illformed")]
     rnd = random.Random(seed)
     # catalogue edits embedded at every position of generated well-formed documents
     docs = gens.g_cst(seed, 60 if q else 400, flags="", renderings=1, doctype_free=True, non_ascii=False)
